@@ -7,6 +7,7 @@ import IrVerif.Lemmas.Clone
 import IrVerif.Lemmas.CloneFrame
 import IrVerif.Lemmas.CloneSim
 import IrVerif.Lemmas.CloneSer
+import IrVerif.Lemmas.CloneScope
 namespace IrVerif.Clone
 
 /-! ### what "the objects of a clone" are -/
@@ -165,7 +166,8 @@ theorem C13_fresh_model {w w' : World} {fuel : Nat} {m m' : Nat}
     ownership pointers always (previous theorems), the back pointers (`Value.graph`,
     `Value.producer`, `Node.graph`) always, and every node input whenever
     `allow_outer_scope_values` is `False` — so with `allow = false` a result can only be returned
-    when no reference escapes; otherwise the call does not return a clone (it raises). -/
+    when no reference escapes; otherwise the call does not return a clone (it raises).  For
+    `allow_outer_scope_values=True` see `C13_closed_outer`. -/
 theorem C13_closed {w w' : World} {fuel : Nat} {allow : Bool} {g g' : Nat}
     (h : run (graphClone fuel allow g) w = (.ok g', w')) (i : Nat) (hi : Owned w' g' i) :
     (∀ n, w'[i]? = some (.node n) →
@@ -196,7 +198,9 @@ theorem C13_closed_model {w w' : World} {fuel : Nat} {m m' : Nat}
 
 /-- **C13_clone_pure**.  Cloning never changes a pre-existing object, whether it returns or
     raises: with `allow_outer_scope_values=False` the old part of the heap is identical; with
-    `True` the only change is that new nodes are appended to the usage lists of values. -/
+    `True` the only change is in the usage lists of values: records by pre-existing nodes are
+    unchanged (`OldSame`), records by nodes of the clone are added (and removed again when the
+    clone is abandoned). -/
 theorem C13_clone_pure {w w' : World} {fuel : Nat} {allow : Bool} {g : Nat} {r : Except Err Nat}
     (h : run (graphClone fuel allow g) w = (r, w')) :
     (allow = false → ∀ (i : Nat) (c : Cell), w[i]? = some c → w'[i]? = some c) ∧
@@ -404,15 +408,17 @@ theorem C13_frame_orig_edited_model {w w' : World} {fuel m : Nat} {r : Except Er
 /-! ### C13_faithful: the clone is observationally the original -/
 
 theorem sim_of_run {m : M Nat} {Q : Nat → St → Prop} (hm : ∀ s, K s → SGoodAt m s Q) {w w' : World}
-    {r : Nat} (h : run m w = (.ok r, w')) : ∃ s', s'.w = w' ∧ Q r s' := by
+    {r : Nat} (h : run m w = (.ok r, w')) : ∃ s', s'.w = w' ∧ CoreLe w w' ∧ Q r s' := by
   have hK0 : K { w := w } := by intro p hp; cases hp
-  obtain ⟨_, _, hq⟩ := hm _ hK0
+  have hq := hm _ hK0
   unfold run at h
   rcases hms : m { w := w } with ⟨r1, s1⟩
-  rw [hms] at hq h
+  rw [hms] at h
   simp only [Prod.mk.injEq] at h
   obtain ⟨rfl, rfl⟩ := h
-  exact ⟨s1, rfl, hq r rfl⟩
+  obtain ⟨_, hl, hq⟩ := hq r (by rw [hms])
+  rw [hms] at hl hq
+  exact ⟨s1, rfl, hl, hq⟩
 
 /-- **C13_faithful** (`Graph.clone`, `GraphView.clone`; both settings of
     `allow_outer_scope_values`).  In the heap after cloning, the clone `g'` and the original `g` are
@@ -428,32 +434,21 @@ theorem sim_of_run {m : M Nat} {Q : Nat → St → Prop} (hm : ∀ s, K s → SG
     Together with `C13_clone_pure` (cloning did not change the original) this is faithfulness. -/
 theorem C13_faithful {w w' : World} {fuel : Nat} {allow : Bool} {g g' : Nat}
     (h : run (graphClone fuel allow g) w = (.ok g', w')) : GraphSim w' g g' := by
-  obtain ⟨s', rfl, hq⟩ := sim_of_run (fun s hK => graphClone_sim fuel g hK) h
+  obtain ⟨s', rfl, _, hq⟩ := sim_of_run (fun s hK => graphClone_sim fuel g hK) h
   exact hq
 
 /-- **C13_faithful_function** (`Function.clone`). -/
 theorem C13_faithful_function {w w' : World} {fuel : Nat} {f f' : Nat}
     (h : run (funcClone fuel f) w = (.ok f', w')) : FuncSim w' f f' := by
-  obtain ⟨s', rfl, hq⟩ := sim_of_run (fun s hK => funcClone_sim fuel f hK) h
+  obtain ⟨s', rfl, _, hq⟩ := sim_of_run (fun s hK => funcClone_sim fuel f hK) h
   exact hq
 
 /-- **C13_faithful_model** (`Model.clone`; the model `functionalize` hands to the wrapped pass). -/
 theorem C13_faithful_model {w w' : World} {fuel : Nat} {m m' : Nat}
     (h : run (modelClone fuel m) w = (.ok m', w')) : ModelSim w' m m' := by
-  obtain ⟨s', rfl, hq⟩ := sim_of_run (fun s hK => modelClone_sim fuel m hK) h
+  obtain ⟨s', rfl, _, hq⟩ := sim_of_run (fun s hK => modelClone_sim fuel m hK) h
   exact hq
 
-
-theorem coreLe_of_run {m : M Nat} {Q : Nat → St → Prop} (hm : ∀ s, K s → SGoodAt m s Q) {w w' : World}
-    {r : Except Err Nat} (h : run m w = (r, w')) : CoreLe w w' := by
-  have hK0 : K { w := w } := by intro p hp; cases hp
-  obtain ⟨_, hl, _⟩ := hm _ hK0
-  unfold run at h
-  rcases hms : m { w := w } with ⟨r1, s1⟩
-  rw [hms] at hl h
-  simp only [Prod.mk.injEq] at h
-  obtain ⟨_, rfl⟩ := h
-  exact hl
 
 /-- **C13_faithful_serialize**: `serialize (clone g) = serialize g`.  `serGraph k w g` is the model
     of what the serializer writes for graph `g` of heap `w` (Lemmas/CloneSer.lean: names, doc
@@ -466,9 +461,64 @@ theorem C13_faithful_serialize {w w' : World} {fuel : Nat} {allow : Bool} {g g' 
     (h : run (graphClone fuel allow g) w = (.ok g', w')) (k : Nat) (y : SGraph)
     (hy : serGraph k w g = some y) :
     serGraph k w' g' = some y ∧ serGraph k w' g = some y := by
-  have hle := coreLe_of_run (fun s hK => graphClone_sim (allow := allow) fuel g hK) h
+  obtain ⟨s', rfl, hle, _⟩ := sim_of_run (fun s hK => graphClone_sim (allow := allow) fuel g hK) h
   have hy' := serGraph_mono hle k hy
   exact ⟨serGraph_sim k (C13_faithful h) hy', hy'⟩
+
+
+/-! ### C13_closed_outer: with `allow_outer_scope_values=True`, what is passed through is outer -/
+
+/-- **C13_closed_outer**.  `Graph.clone(allow_outer_scope_values=True)`: every input of every node
+    created by the clone (at any depth) is either not a pre-existing object at all (`w.length ≤ v`:
+    a value of the clone) or a pre-existing value that is NOT defined at the top level of the cloned
+    graph — not one of its inputs, not one of its initializers, not an output of one of its nodes.
+    So the clone never consumes a value of the graph it copies (D33 closed); what it passes through
+    is a genuine outer-scope value.  The same holds, with the nested graph in place of `g`, for the
+    nodes created while a nested graph is cloned (`cloneGraph_cov`, which this theorem instantiates
+    at the root and which the induction uses at every nested call): a passed-through value is
+    defined in no graph of the consumer's scope chain inside the cloned region. -/
+theorem C13_closed_outer {w w' : World} {fuel : Nat} {allow : Bool} {g g' : Nat} {gs : GraphS}
+    (h : run (graphClone fuel allow g) w = (.ok g', w')) (hg : w[g]? = some (.graph gs)) :
+    ∀ (i : Nat) (ns : NodeS), w.length ≤ i → w'[i]? = some (.node ns) → ∀ v, some v ∈ ns.inputs →
+      w.length ≤ v ∨
+      (v ∉ gs.inputs ∧ v ∉ gs.inits.map (·.2) ∧
+        ∀ n ∈ gs.nodes, ∀ x, w[n]? = some (.node x) → v ∉ x.outputs) := by
+  have hK0 : KC w.length { w := w } := by
+    refine ⟨?_, Nat.le_refl _, ?_, ?_⟩
+    · intro p hp; cases hp
+    · intro p hp; cases hp
+    · intro i ns hi hc
+      have hnone : w[i]? = none := List.getElem?_eq_none hi
+      rw [hnone] at hc
+      exact absurd hc (by simp)
+  have hc := cloneGraph_cov (n0 := w.length) (allow := allow) fuel g { w := w } hK0
+  unfold run graphClone withFreshMap at h
+  rcases hms : cloneGraph allow fuel g { w := w } with ⟨r1, s1⟩
+  have e0 : ({ w := w, vm := [], pend := [], created := [] } : St) = { w := w } := rfl
+  simp only [e0, hms, Prod.mk.injEq] at h
+  obtain ⟨rfl, rfl⟩ := h
+  obtain ⟨hK1, _, _, _, _, gs0, hgs0, havoid⟩ := hc g' (by rw [hms])
+  rw [hms] at hK1 havoid
+  simp only at hK1 havoid hgs0
+  have : gs0 = gs := by
+    rw [cGraph_of hg] at hgs0; cases hgs0; rfl
+  subst this
+  intro i ns hi hn v hv
+  rcases Nat.lt_or_ge v w.length with hlt | hge
+  · right
+    have hmem := hK1.allc i ns hi hn
+    obtain ⟨ns', hns', hav⟩ := havoid i (by simpa using hmem)
+    rw [cNode_of hn] at hns'
+    cases hns'
+    have hnd := hav v hv hlt
+    refine ⟨fun h => hnd (.inl h), fun h => hnd (.inr (.inl h)), ?_⟩
+    intro n hnm x hx hvx
+    apply hnd
+    refine .inr (.inr ?_)
+    unfold outsOf
+    rw [List.mem_flatMap]
+    exact ⟨n, hnm, by rw [cNode_of hx]; exact hvx⟩
+  · exact .inl hge
 
 /-! ### non-vacuity: the hypotheses are satisfiable and D33 is a real counterexample to the
 unconditional statement for `allow = true` -/
@@ -530,9 +580,9 @@ def typeOfValueNamed (w : World) (nm : String) : List (Option Nat) :=
 example : typeOfValueNamed (run (graphClone 4 false 0) exWorld).2 "x" = [some 12, some 13] := by
   decide +kernel
 
-/-! D33 in the model: with `allow = true` the unconditional "every node input of the clone is a
-value of the clone or an outer-scope value" is FALSE for a graph that is not in def-before-use
-order.  Graph g(x): nodes [b, a], a = A(x) -> va, b = B(va) -> vb. -/
+/-! D33 (fixed): a graph that is not in def-before-use order is rejected for both settings of
+`allow_outer_scope_values` — with `allow = true` the cloner used to return a clone whose node consumed
+the ORIGINAL's value.  Graph g(x): nodes [b, a], a = A(x) -> va, b = B(va) -> vb. -/
 def exUnsorted : World := [
   .graph { name := some "g", inputs := [3], outputs := [15], nodes := [12, 6], props := 1, mstore := 2 },
   .dict {}, .dict {},
@@ -555,13 +605,36 @@ def inputsOfNodesNamed (w : World) (nm : String) : List (List (Option Nat)) :=
     | .node n => if n.name = some nm then some n.inputs else none
     | _ => none
 
-/-- the clone's node `b` consumes cell 9 — the ORIGINAL's value `va` (cell 9 < 18 = heap size
-    before cloning): the clone points into the original -/
-example : isOk (run (graphClone 4 true 0) exUnsorted).1 = true ∧
-    inputsOfNodesNamed (run (graphClone 4 true 0) exUnsorted).2 "b" = [[some 9], [some 9]] := by
+def usersOf (w : World) (nm : String) : List (List (Nat × Nat)) :=
+  w.filterMap fun c => match c with
+    | .val v => if v.name = some nm then some v.uses else none
+    | _ => none
+
+/-- rejected, and nothing is left behind: no node named `b` besides the original's, and the users of
+    `va` are what they were -/
+example : isOk (run (graphClone 4 true 0) exUnsorted).1 = false ∧
+    inputsOfNodesNamed (run (graphClone 4 true 0) exUnsorted).2 "b" = [[some 9]] ∧
+    usersOf (run (graphClone 4 true 0) exUnsorted).2 "va" = [[(12, 0)]] := by
   decide +kernel
 
-/-- with `allow = false` the same graph is rejected -/
 example : isOk (run (graphClone 4 false 0) exUnsorted).1 = false := by decide +kernel
+
+/-- a graph that captures an outer-scope value `o` (cell 3): c = C(o) -> vc -/
+def exCapture : World := [
+  .graph { name := some "sub", inputs := [], outputs := [9], nodes := [6], props := 1, mstore := 2 },
+  .dict {}, .dict {},
+  .val { name := some "o", uses := [(6, 0)], props := 4, mstore := 5 },
+  .dict {}, .dict {},
+  .node { name := some "c", opType := "C", inputs := [some 3], outputs := [9], graph := some 0,
+          props := 7, mstore := 8 },
+  .dict {}, .dict {},
+  .val { name := some "vc", producer := some 6, index := some 0, graph := some 0, isOut := true,
+         props := 10, mstore := 11 },
+  .dict {}, .dict {} ]
+
+/-- C13_closed_outer is not vacuous: the clone is returned and its node consumes the outer value -/
+example : isOk (run (graphClone 4 true 0) exCapture).1 = true ∧
+    inputsOfNodesNamed (run (graphClone 4 true 0) exCapture).2 "c" = [[some 3], [some 3]] := by
+  decide +kernel
 
 end IrVerif.Clone
